@@ -99,6 +99,12 @@ func (e *env) noteOvershoot(c *cell, size, limit int) {
 }
 
 func (e *env) violation(c *cell, o observation, key, what string, extra map[string]any) {
+	if c.phase != "" {
+		// Histories across clients that share the servers' Disposer.
+		key = c.phase + ":" + key
+		what += " (response built from a pooled clone of a stored message; the servers dispose of written responses into the same Cloner)"
+	}
+
 	w := c.witness()
 	w["observed_outcome"] = o.outcome
 	w["observed_wire_len"] = o.wireLen
@@ -155,7 +161,7 @@ func (e *env) judge(c *cell, o observation) {
 
 	full := hsize + optLen(c.form, c.sh.OwnOPT)
 	rel := relClass(full, limit)
-	class := strings.Join([]string{fam, fmt.Sprint(c.path.cfg), advClass(c.form.Adv), c.form.Name, c.form.TTLVar,
+	class := strings.Join([]string{c.phase, fam, fmt.Sprint(c.path.cfg), advClass(c.form.Adv), c.form.Name, c.form.TTLVar,
 		fmt.Sprint("own", c.sh.OwnOPT), c.sh.Mix, c.sh.Kind, rel}, "|")
 
 	// B2, framing half: decided by the session.
